@@ -19,7 +19,9 @@ continuation-passing style: a piece of a pattern is a function taking the contin
 pattern, which receives what the piece captured) and the input; `star`/`plus` try the longest run first and fall
 back (`Option.orElse`) to shorter ones exactly like the engine; `alt a b` is `a` or else `b`.  The first `some` in
 that order is the engine's match.  Each definition `re…` below carries the Python pattern (after the `utils.match`
-rewriting) in its doc-comment.
+rewriting) in its doc-comment.  Literal pieces of the patterns are the character-list constants `sSequence`, `sDomainsP`, …
+(each followed by an `example` that it is the string's character list; string literals inside the definitions would make
+`whnf`-based proof automation evaluate UTF-8 decoding).
 
 **Character classes** are those of `re` on ASCII `str` input: `\w` = `[A-Za-z0-9_]`, `\d` = `[0-9]`,
 `\s` = `str.isspace` = `[ \t\n\r\f\v\x1c\x1d\x1e\x1f]` (the four separator controls 0x1c–0x1f ARE white space for
